@@ -232,6 +232,19 @@ struct Issue
       res = -1;                                                                                                        \
   } while (0)
 
+#define VF_LOG_DYN(res, logger, lvl, fmt, ...)                                                                          \
+  do                                                                                                                   \
+  {                                                                                                                    \
+    if (logger->should_log_statement(lvl))                                                                             \
+    {                                                                                                                  \
+      static constexpr quill::MacroMetadata macro_metadata{__FILE__ ":" QUILL_STRINGIFY(__LINE__), __FUNCTION__, fmt,   \
+                                                           nullptr, quill::LogLevel::Dynamic, quill::MacroMetadata::Event::Log}; \
+      res = logger->template log_statement<false, true>(lvl, &macro_metadata, ##__VA_ARGS__) ? 1 : 0;                  \
+    }                                                                                                                  \
+    else                                                                                                               \
+      res = -1;                                                                                                        \
+  } while (0)
+
 // the standard statement: "tid|seq|len|payload". One statement in three passes the payload as a C string (its length
 // goes through the thread's size cache, e.g. across statements that a dropping queue refused), the others as a
 // string_view; the text is the same
@@ -240,6 +253,7 @@ struct Issue
     if (cs) VF_LOG_RES(res, lg, quill::LogLevel::L, "{}|{}|{}|{}", tid, seq, len, cp);                                 \
     else VF_LOG_RES(res, lg, quill::LogLevel::L, "{}|{}|{}|{}", tid, seq, len, sv);                                    \
     break;
+// ... and one in five (of the ordinary levels) supplies its level at run time (one more byte in the record)
 inline int log_std(Lg* lg, quill::LogLevel lvl, uint32_t tid, uint32_t seq, std::string const& pl)
 {
   int res = -1;
@@ -247,6 +261,12 @@ inline int log_std(Lg* lg, quill::LogLevel lvl, uint32_t tid, uint32_t seq, std:
   std::string_view const sv{pl};
   char const* const cp = pl.c_str();
   bool const cs = ((tid * 31u + seq) % 3u) == 0;
+  if (((tid * 17u + seq) % 5u) == 0 && lvl != quill::LogLevel::Backtrace && len < kMaxPayload) // (a payload of kMaxPayload bytes fills the queue exactly: no room for the extra byte)
+  {
+    if (cs) VF_LOG_DYN(res, lg, lvl, "{}|{}|{}|{}", tid, seq, len, cp);
+    else VF_LOG_DYN(res, lg, lvl, "{}|{}|{}|{}", tid, seq, len, sv);
+    return res;
+  }
   switch (lvl)
   {
     VF_LOG_STD_CASE(TraceL3)
@@ -263,19 +283,6 @@ inline int log_std(Lg* lg, quill::LogLevel lvl, uint32_t tid, uint32_t seq, std:
   }
   return res;
 }
-
-#define VF_LOG_DYN(res, logger, lvl, fmt, ...)                                                                          \
-  do                                                                                                                   \
-  {                                                                                                                    \
-    if (logger->should_log_statement(lvl))                                                                             \
-    {                                                                                                                  \
-      static constexpr quill::MacroMetadata macro_metadata{__FILE__ ":" QUILL_STRINGIFY(__LINE__), __FUNCTION__, fmt,   \
-                                                           nullptr, quill::LogLevel::Dynamic, quill::MacroMetadata::Event::Log}; \
-      res = logger->template log_statement<false, true>(lvl, &macro_metadata, ##__VA_ARGS__) ? 1 : 0;                  \
-    }                                                                                                                  \
-    else                                                                                                               \
-      res = -1;                                                                                                        \
-  } while (0)
 
 // issue one standard statement and record the call/return events at the client boundary
 inline Issue issue_std(std::vector<Issue>& log, Lg* lg, uint16_t logger_idx, quill::LogLevel lvl, uint32_t tid, uint32_t seq, uint32_t len)
